@@ -4,8 +4,8 @@ CONSTANTS
   Hist = FALSE
   ClearBeforeCopy = FALSE
   CopyThroughSet = FALSE
-  AliasedFirstAssignment = TRUE
-  Churn = FALSE
+  AliasedFirstAssignment = FALSE
+  Churn = TRUE
   StaleReportedCache = FALSE
   UnhookedExtend = FALSE
 SPECIFICATION Spec
